@@ -1137,7 +1137,92 @@ def prop_C08(ctx):
     return ctx.finish()
 
 
+# ---------------------------------------------------------------------------------------------- C02
+def check_enum_arms(ctx, r, it, key, imp):
+    kind, fallible, cp, _self = key
+    try:
+        exp, any_ghost = oracles.expected_enum_arms(it, kind, fallible, cp)
+    except oracles.OutOfScope as e:
+        return 'oos', str(e)
+    act = oracles.actual_enum_arms(imp, fallible)
+    if act is None:
+        return 'bad', 'the body is not a single match'
+    scrut, arms = act
+    is_from = kind.startswith('from')
+    want_scrut = 'value' if is_from else 'self'
+    problems = []
+    if scrut != want_scrut:
+        problems.append('the match scrutinee is %s' % scrut)
+    dflt = None
+    got = []
+    for pat, body in arms:
+        if pat == '_':
+            dflt = body
+            if (pat, body) != arms[-1]:
+                problems.append('the `_` arm is not last')
+            continue
+        got.append((oracles.parse_pattern(pat), body))
+    if len(got) != len(exp):
+        problems.append('expected %d variant arms, found %d' % (len(exp), len(got)))
+    for (ep, em), (gp, gb) in zip(exp, got):
+        side, pat = ep
+        if isinstance(pat, str):     # ghost variant with default: pattern is the own variant, any payload form
+            want_path = ('E::' if side == 'own' else cp + '::') + pat
+            if gp[1] != want_path:
+                problems.append('arm pattern %r: expected variant %s' % (gp, want_path))
+            if gb != em:
+                problems.append('arm for %s: expected %r, found %r' % (want_path, em, gb))
+            continue
+        pshape, name, binds = pat
+        want_path = ('E::' if side == 'own' else cp + '::') + name
+        gshape, gpath, gbinds = gp
+        gb_cmp = sorted(x for x in gbinds if x != '..') if gshape == 'named' else [x for x in gbinds if x != '..']
+        if gpath != want_path or (pshape == 'unit') != (gshape == 'unit' and True) and not (pshape == 'unit' and gbinds in ([], ['..'])) \
+                or (pshape != 'unit' and (gshape != pshape or gb_cmp != (sorted(binds) if pshape == 'named' else binds))):
+            problems.append('arm pattern: expected %s %s %r, found %r' % (pshape, want_path, binds, gp))
+        _, dside, dname, mean = em
+        dpath = ('E::' if dside == 'own' else cp + '::') + dname
+        if mean == ('unit',):
+            okb = gb == ('expr', dpath)
+        else:
+            okb = gb == ('build', dpath, mean)
+        if not okb:
+            problems.append('arm for %s: expected %s %r, found %r' % (want_path, dpath, mean, gb))
+    return ('bad', '; '.join(problems)) if problems else ('ok', dflt)
+
+
+def prop_C02(ctx):
+    ctx.build()
+    q = ctx.tier == 'quick'
+    recs = ctx.run_set('designated_arms', gen.c02_cases(ctx.rng, 4000 if q else 40000), obs_sem, sem=True)
+    n = oos = 0
+    reasons = collections.Counter()
+    for r in recs:
+        it = r.get('item')
+        if vlib.outcome_class(r['out']) != 'ok' or not r.get('sem'):
+            continue
+        for key, imp in oracles.sem_impls(r['sem']) or []:
+            if key is None:
+                continue
+            st, info = check_enum_arms(ctx, r, it, key, imp)
+            if st == 'oos':
+                oos += 1
+                reasons[info] += 1
+            elif st == 'bad':
+                n += 1
+                ctx.report(r, 'conversion (%s, fallible=%s, %s): %s' % (key[0], key[1], key[2], info), 'designated arms (README rules) vs syn-parsed match of the implementation\'s impl',
+                           key='arms:' + key[0])
+            else:
+                n += 1
+    ctx.cov['impls_checked'] = n
+    ctx.cov['impls_outside_statement'] = oos
+    ctx.cov['outside_reasons'] = dict(reasons)
+    generic_sets(ctx, ['enum_grid', 'vfield_grid'], vlib.obs_full)
+    return ctx.finish()
+
+
 PROPS = {
+    'C02': prop_C02,
     'C08': prop_C08,
     'C07': prop_C07,
     'C01': prop_C01,
